@@ -37,7 +37,8 @@ ALIAS_ORACLE_PATTERNS = [
     (re.compile(r"^unsigned __int(\d+)$"), lambda m: ("int", int(m.group(1)), False)),
     (re.compile(r"^__u(\d+)$"), lambda m: ("int", int(m.group(1)), False)),
     (re.compile(r"^__s(\d+)$"), lambda m: ("int", int(m.group(1)), True)),
-    (re.compile(r"^u(\d+)$"), lambda m: ("int", int(m.group(1)) * 8, False)),
+    (re.compile(r"^u(1|2|4|8|16)$"), lambda m: ("int", int(m.group(1)) * 8, False)),  # byte counts (u1..u16)
+    (re.compile(r"^[us](32|64|128)$"), lambda m: ("int", int(m.group(1)), m.group(0)[0] == "s")),  # bit counts
     (re.compile(r"^_(BYTE|WORD|DWORD|QWORD|OWORD)$"), lambda m: ALIAS_ORACLE_FIXED[m.group(1)]),
 ]
 PACKCHAR_INT = {"b": (8, True), "B": (8, False), "h": (16, True), "H": (16, False), "i": (32, True), "I": (32, False),
